@@ -1014,6 +1014,8 @@ pub fn c01(tier: Tier) -> i32 {
     };
     explore_list("C01", &mut ctx, &env, "calendar", calendar_ledgers(from, to), &mut acc, &format!("BUY(D-100) SELL(D) BUY(D+g), every D in {from}..{to}, g in -1,0,1,29,30,31,32"));
     explore_alpha("C01", &mut ctx, &env, &crate::perm::fills_alphabet(), if tier == Tier::Quick { 5 } else { 6 }, &mut acc);
+    // several securities whose trades and corporate actions interleave on the same dates
+    explore_alpha("C01", &mut ctx, &env, &profiles::two_sec(), if tier == Tier::Quick { 5 } else { 6 }, &mut acc);
     explore_list("C01", &mut ctx, &env, "compete", profiles::compete_ledgers(), &mut acc, "2-3 consecutive disposal days + an acquisition day with its own disposal, all quantity combinations, with/without a split in between");
     for k in ["legs:same-day", "legs:30-day", "legs:section-104", "shape:30-day-leg-across-split", "shape:30-day-leg-onto-day-with-own-disposal", "shape:several-disposals-claim-one-acquisition-day", "shape:30-day-leg-at-exactly-D+30", "shape:disposal-spread-over-several-rules"] {
         ctx.require(acc.get(k) > 0, &format!("no state exhibited {k}"));
